@@ -146,13 +146,16 @@ def build_topology():
 def make_md_topology(atoms, bonds):
     import mdtraj as md
     top = md.Topology()
-    chains, residues = {}, {}
+    chains, residues, nres_in_chain = {}, {}, {}
     alist = []
     for nm, el, rn, ri, ch in atoms:
         if ch not in chains:
             chains[ch] = top.add_chain()
         if ri not in residues:
-            residues[ri] = top.add_residue(rn, chains[ch])
+            # residue numbers restart at 1 in every chain (as in multi-chain PDB files): the waters share their resSeq
+            # with the first residues of the peptide and ligand chains, later residues have numbers no water has
+            nres_in_chain[ch] = nres_in_chain.get(ch, 0) + 1
+            residues[ri] = top.add_residue(rn, chains[ch], resSeq=nres_in_chain[ch])
         alist.append(top.add_atom(nm, md.element.get_by_symbol(el), residues[ri]))
     for i, j in bonds:
         top.add_bond(alist[i], alist[j])
@@ -319,9 +322,14 @@ def judge_traj(spec, xyz32, cellrec, opts_bh, opts_wn, stats, recs):
     T = topo()
     traj = md.Trajectory(xyz32.copy(), T["md"])
     cellv = None
+    cellstack = None
     if cellrec is not None:
         F = xyz32.shape[0]
-        traj.unitcell_vectors = np.repeat(cellrec["vectors"][None].astype(np.float32), F, axis=0)
+        if "stack" in cellrec:          # cell shape changes from frame to frame
+            traj.unitcell_vectors = np.array(cellrec["stack"], np.float32)
+            cellstack = np.asarray(traj.unitcell_vectors, np.float64)
+        else:
+            traj.unitcell_vectors = np.repeat(cellrec["vectors"][None].astype(np.float32), F, axis=0)
         cellv = np.asarray(traj.unitcell_vectors[0], np.float64)
     x64 = xyz32.astype(np.float64)
     geo_cache = {}
@@ -332,10 +340,17 @@ def judge_traj(spec, xyz32, cellrec, opts_bh, opts_wn, stats, recs):
             c = cellv if per else None
             R = 2
             if per:
-                if cellrec["name"] not in _MICR:
+                if "stack" in cellrec:
+                    pass
+                elif cellrec["name"] not in _MICR:
                     _MICR[cellrec["name"]] = hr.mic_search_radius(cellv)
-                R = _MICR[cellrec["name"]]
-            geo_cache[per] = (hr.hbond_geometry(x64, T[("trip", False, False, False)], c, R), hr.err_model(x64, c))
+                R = _MICR.get(cellrec["name"], 2)
+            if per and cellstack is not None:
+                parts = [hr.hbond_geometry(x64[f:f + 1], T[("trip", False, False, False)], cellstack[f], 2) for f in range(x64.shape[0])]
+                g_ = {kk: np.concatenate([p_[kk] for p_ in parts], axis=0) for kk in parts[0]}
+                geo_cache[per] = (g_, max(hr.err_model(x64, cellstack[f]) for f in range(x64.shape[0])))
+            else:
+                geo_cache[per] = (hr.hbond_geometry(x64, T[("trip", False, False, False)], c, R), hr.err_model(x64, c))
         k = (ew, sc, per)
         if k not in geo_cache:
             g, err = geo_cache[per]
@@ -491,8 +506,16 @@ def run_bhwn_item(family, cut, pattern, gi, cellname, seed, quick, stats, recs, 
     xyz = build_frames(family, grid, gi, pattern, seed, clear)
     cellrec = None
     if cellname is not None:
-        cellrec = [c for c in grids.cell_menu(False, unreduced=False) if c["name"] == cellname][0]
-        xyz = lattice_shift(xyz, cellrec["vectors"], seed)
+        menu = {c["name"]: c for c in grids.cell_menu(False, unreduced=False)}
+        if ">" in cellname:
+            # the cell SHAPE changes along the trajectory: frame f uses the (f mod 2)-th of the two named cells
+            names = cellname.split(">")
+            stack = [menu[names[f % len(names)]]["vectors"] for f in range(xyz.shape[0])]
+            xyz = np.concatenate([lattice_shift(xyz[f:f + 1], stack[f], seed) for f in range(xyz.shape[0])], axis=0)
+            cellrec = dict(name=cellname, stack=stack)
+        else:
+            cellrec = menu[cellname]
+            xyz = lattice_shift(xyz, cellrec["vectors"], seed)
     pers = [True] if cellname is None else [True, False]
     if family == "bh":
         default = (dc, ac) == (0.25, 120.0)
@@ -1347,7 +1370,17 @@ def run(ctx):
                 for p in pats2:
                     for gi in range(G):
                         items.append(("bh", cut, p, gi, c["name"]))
+    # cell shape changing along the trajectory (rectangular <-> sheared), 2- and 3-frame patterns, every 3rd grid offset
+    G0 = len(bh_grid(0.25, 120.0))
+    for cn in ("cubic3>mono110", "mono110>cubic3", "ortho234>tric_75_100_115"):
+        for p in [q for q in _patterns(3) if len(q) >= 2]:
+            for gi in range(0, G0, 3 if quick else 1):
+                items.append(("bh", (0.25, 120.0), p, gi, cn))
     Gw = len(wn_grid())
+    for cn in ("cubic3>mono110", "mono110>cubic3"):
+        for p in pats2[1:]:
+            for gi in range(0, Gw, 3 if quick else 1):
+                items.append(("wn", (0.25, 120.0), p, gi, cn))
     for p in _patterns(3):
         for gi in range(Gw):
             items.append(("wn", (0.25, 120.0), p, gi, None))
